@@ -410,7 +410,7 @@ func runC15Case(c *Ctx, idx int) *CaseResult {
 func init() {
 	register(&Check{
 		ID: "C15", Level: "fault_enumeration",
-		Rule: "per terminating program (2-6 rules, every action list starts with T.Seq = T.Seq + 1; T.Mark(T.Seq)) a first run counts the E boundary events (BeginCycle, each EvaluateRuleEntry, ExecuteRuleEntry, each harness-method call inside a condition / an action); then for every e<=E (all up to 80 quick / 400 thorough, seeded sample beyond) the run is repeated with the context ended synchronously at event e, alternately by cancellation and by an expiring deadline; the same for every index k of the engine's own ctx.Err() calls (the context ends just before the k-th call: this reaches the windows between two consecutive checks); plus pre-cancelled, deadline in the past, and 6 asynchronous cancellations per program from a second goroutine (race-detector build, verdict from stamp order only); non-trivial = distinct (program, point) where a further firing was still due (Execute had to return the context error)",
+		Rule: "per terminating program (2-6 rules, every action list starts with T.Seq = T.Seq + 1; T.Mark(T.Seq)) a first run counts the E boundary events (BeginCycle, each EvaluateRuleEntry, ExecuteRuleEntry, each harness-method call inside a condition / an action); then for every e<=E (all up to 80 quick / 400 thorough, seeded sample beyond) the run is repeated with the context ended synchronously at event e, alternately by cancellation and by an expiring deadline; the same for every index k of the engine's own ctx.Err() calls (the context ends just before the k-th call: this reaches the windows between two consecutive checks); plus pre-cancelled, deadline in the past, and 6 asynchronous cancellations per program from a second goroutine (race-detector build, verdict from stamp order only); non-trivial = distinct (program, point) where a further firing was still due (Execute had to return the context error); contexts end in 4 flavours: cancelled, deadline expired, cancelled although a deadline far in the future is set, cancelled with a cause",
 		Assume: []string{"programs contain no Complete() (what should win is unspecified)", "a nil return when cancellation landed in the final quiescent cycle is accepted", "any prefix of the running rule's action list is accepted after cancellation inside it"},
 		Cases:  tierN(300, 8000),
 		Run:    runC15Case,
